@@ -2155,6 +2155,11 @@ def add_declarations(parent, node):
         return
     if not node["declarations"]:
         return
+    if not isinstance(parent, NamespaceMixin):
+        raise RuntimeError(
+            "'declarations' is only allowed in a library, block, namespace, "
+            "class or struct, found in '{}'".format(
+                getattr(parent, "decl", None) or getattr(parent, "name", parent)))
 
     for subnode in node["declarations"]:
         if "block" in subnode:
